@@ -23,9 +23,9 @@ pub fn check() -> Check {
         floor_quick: 3_000,
         floor_thorough: 50_000,
         rule: "Fault enumeration: for every scenario of a corpus (typing and editing, recall, completion, Enter with handler output, every kind of parse error, help / help <cmd> / nested help in plain and grouped command sets, Cli::write, set_prompt, multi-byte quoting, construction) \
-               a clean run counts the sink calls N; then EVERY call index k < N is failed once and, separately, permanently (2N runs per scenario), after which the sink is repaired and each of three suffixes ending in Enter is typed. Proptest-generated sessions with a random k extend the corpus. \
+               a clean run counts the sink calls N; then EVERY call index k < N is failed once and, separately, permanently (2N runs per scenario), after which the sink is repaired and each of four suffixes ending in Enter (one of them recalling history) is typed. Proptest-generated sessions with a random k extend the corpus. \
                Oracle: no panic; the API call during which the sink raised SinkErr(k) returns Err(SinkErr(k')) with k' raised in that call, and calls during which nothing was raised return Ok; the edited line (hook) is the line before the call, the clean-run line after it, or empty, and well-formed UTF-8; \
-               the suffix behaves like an ideal editor on the observed line and its Enter dispatches exactly the reference tokens of that line. \
+               the suffix behaves like an ideal editor on the observed line, a recall in it shows only a line the user submitted, and its Enter dispatches exactly the reference tokens of that line. \
                Non-trivial = the failure lands inside handler output, help output, error output, a redraw or a completion echo and is not the first sink call of that API call; distinct by (scenario, k, mode).",
         assumptions: &[
             "single failure points (one call failed once, or all calls from k on until repair), not arbitrary failure patterns",
@@ -187,6 +187,7 @@ fn suffixes() -> Vec<Vec<Op>> {
         vec![Op::Char('x'), Op::Enter],
         vec![Op::Backspace, Op::Char('é'), Op::Left, Op::Char('b'), Op::Enter],
         vec![Op::Left, Op::Left, Op::Char(' '), Op::Right, Op::Char('"'), Op::Enter, Op::Char('z'), Op::Enter],
+        vec![Op::Up, Op::Enter, Op::Up, Op::Up, Op::Char('q'), Op::Enter, Op::Down, Op::Enter],
     ]
 }
 
@@ -239,6 +240,8 @@ struct Clean {
     /// per step: sink calls before the step, editor after the step
     steps: Vec<(usize, EditorView)>,
     total_calls: usize,
+    /// per step: the line an Enter submitted at that step (None for other steps)
+    submitted: Vec<Option<Vec<u8>>>,
 }
 
 fn clean_run<S: CmdSet>(cfg: &Config, steps: &[Step]) -> Result<Clean, Fail> {
@@ -246,9 +249,16 @@ fn clean_run<S: CmdSet>(cfg: &Config, steps: &[Step]) -> Result<Clean, Fail> {
     let mut s = s.map_err(|e| ("clean run: construction succeeds".to_string(), format!("{:?}", e)))?;
     let construction_calls = st.borrow().calls;
     let mut recs = Vec::new();
+    let mut submitted = Vec::new();
     for step in steps {
         let before = st.borrow().calls;
+        let line_before = s.editor().bytes;
+        let calls_before = s.calls();
+        let out_before = s.out_len();
         do_step(&mut s, step).map_err(|e| ("clean run: Ok".to_string(), format!("{:?}", e)))?;
+        // an Enter is recognised by its effect: the line was cleared and a line break was written
+        let is_enter = matches!(step, Step::Byte(b'\r', _) | Step::Byte(b'\n', _)) && (s.calls() > calls_before || s.out_from(out_before).starts_with(b"\r\n"));
+        submitted.push(if is_enter { Some(line_before) } else { None });
         recs.push((before, s.editor()));
     }
     let total_calls = st.borrow().calls;
@@ -256,6 +266,7 @@ fn clean_run<S: CmdSet>(cfg: &Config, steps: &[Step]) -> Result<Clean, Fail> {
         construction_calls,
         steps: recs,
         total_calls,
+        submitted,
     })
 }
 
@@ -263,7 +274,8 @@ fn lossy(b: &[u8]) -> String {
     String::from_utf8_lossy(b).to_string()
 }
 
-fn run_suffix<S: CmdSet>(s: &mut Sess<S>, cfg: &Config, suffix: &[Op]) -> Result<(), Fail> {
+fn run_suffix<S: CmdSet>(s: &mut Sess<S>, cfg: &Config, suffix: &[Op], typed_lines: &[Vec<u8>]) -> Result<(), Fail> {
+    let mut typed_lines: Vec<Vec<u8>> = typed_lines.to_vec();
     let ev = s.editor();
     let text = ev.text().ok_or_else(|| ("line is well-formed UTF-8 after the failure".to_string(), format!("{:02x?}", ev.bytes)))?.to_string();
     let mut m = RefEditor::new(cfg.cmd_buf);
@@ -294,7 +306,23 @@ fn run_suffix<S: CmdSet>(s: &mut Sess<S>, cfg: &Config, suffix: &[Op]) -> Result
             }
             Op::Enter => {
                 check_dispatch(&expected_dispatch(&pre_line, true), &new_calls, &what, &pre_line)?;
+                typed_lines.push(pre_line.as_bytes().to_vec());
                 m.clear();
+            }
+            Op::Up | Op::Down => {
+                // recall may show any line the user submitted so far, the line as it was, or nothing - never other text
+                let ev = s.editor();
+                let ok = ev.bytes.is_empty() || ev.bytes == pre_line.as_bytes() || typed_lines.iter().any(|l| *l == ev.bytes);
+                if !ok {
+                    return Err((
+                        format!("{}: recall shows a line the user submitted ({:?}), the line as it was, or nothing", what, typed_lines.iter().map(|l| lossy(l)).collect::<Vec<_>>()),
+                        format!("{:?}", lossy(&ev.bytes)),
+                    ));
+                }
+                match ev.text() {
+                    Some(t) if ev.cursor <= t.chars().count() => m.set_with_cursor(t, ev.cursor),
+                    _ => return Err((format!("{}: recalled line is well-formed with the cursor inside it", what), format!("{:02x?} cursor {}", ev.bytes, ev.cursor))),
+                }
             }
             _ => {}
         }
@@ -374,7 +402,8 @@ fn fault_run<S: CmdSet>(cfg: &Config, steps: &[Step], clean: &Clean, fault: Faul
                     ));
                 }
                 st.borrow_mut().repair();
-                run_suffix(&mut s, cfg, suffix).map_err(|(e, o)| (format!("{} — {}", what, e), o))?;
+                let typed: Vec<Vec<u8>> = clean.submitted[..=si].iter().flatten().cloned().collect();
+                run_suffix(&mut s, cfg, suffix, &typed).map_err(|(e, o)| (format!("{} — {}", what, e), o))?;
                 return Ok(Some(si));
             }
         }
@@ -491,6 +520,7 @@ fn run_shard(ctx: &ShardCtx) {
         1 => Just(Op::Left),
         1 => Just(Op::Right),
         1 => Just(Op::Enter),
+        1 => Just(Op::Up),
     ];
     let strat = (
         case_strategy(opts, &["raw", "enum", "group"]),
